@@ -315,6 +315,13 @@ pub fn run_line(line: &str) -> String {
                     Err(_) => "B:err".to_string(),
                 });
             }
+            if t == "X" {
+                // collect everything but print only its length and an independent XXH64 (for very large outputs)
+                return Some(match dec.collect() {
+                    Some(v) => format!("X:{}:{}", v.len(), crate::xxh::xxh64(&v, 0)),
+                    None => "X:none".to_string(),
+                });
+            }
             if t == "C" {
                 return Some(match dec.collect() {
                     Some(v) => format!("C:{}", hex(&v)),
